@@ -95,7 +95,7 @@ func (c *ServiceCodec) Decode(request []byte, context *core.ServiceContext) (nam
 	if method.Missing() {
 		args = make([]interface{}, len(req.Params))
 		for i, param := range req.Params {
-			if err = c.Codec.Unmarshal(param, &args[i]); err != nil {
+			if err = c.Codec.Unmarshal(rawOrNull(param), &args[i]); err != nil {
 				err = &jsonrpcError{codeInvalidParams, messageInvalidParams}
 				return
 			}
@@ -123,7 +123,7 @@ func (c *ServiceCodec) Decode(request []byte, context *core.ServiceContext) (nam
 	for i, t := range paramTypes {
 		t2 := reflect2.Type2(t)
 		a := t2.New()
-		if err = c.Codec.Unmarshal(req.Params[i], a); err != nil {
+		if err = c.Codec.Unmarshal(rawOrNull(req.Params[i]), a); err != nil {
 			err = &jsonrpcError{codeInvalidParams, messageInvalidParams}
 			return
 		}
